@@ -21,7 +21,9 @@ PATHS = ['/a', '/b', '/b/', '/a/z', '/q', '/q/r/s', '/', '/c/7', '/c/x', '/a/', 
 OUTCOMES = {'ok': '200', 'red': '302', 'r404': '404', 'x409': '409', 'nb403': '403', 'nbret404': '404',
             'boom': "'ValueError'", 'boom2': "'KeyError'", 'ise': '500', 'x423': '423', 'r451': '451', 'x599': '599',
             # HTTPExceptions of the underlying library (werkzeug.exceptions): they have a code, too
-            'wz410': '410', 'wzkey': '400', 'wzabort': '418'}
+            'wz410': '410', 'wzkey': '400', 'wzabort': '418',
+            # responses that carry no Content-Type header at all
+            'nocontent': '204', 'notmod': '304'}
 NONBREAKING = ('nb403', 'nbret404')
 
 
@@ -53,6 +55,10 @@ def make_ep(out):
         if out == 'x599':
             from clastic.errors import HTTPException
             raise HTTPException(code=599)
+        if out in ('nocontent', 'notmod'):
+            resp = Response(b'', status={'nocontent': 204, 'notmod': 304}[out])
+            resp.headers.pop('Content-Type', None)
+            return resp
         if out == 'wz410':
             from werkzeug.exceptions import Gone
             raise Gone()
